@@ -1,4 +1,4 @@
-SPECIFICATION FairSpec
+SPECIFICATION Spec
 CONSTANTS
   NF = 1
   MaxCrashes = 0
@@ -35,10 +35,6 @@ INVARIANT SlotsBounded
 INVARIANT PersistedPartialsSurvive
 INVARIANT DoneIsDurable
 INVARIANT NoPartialLostOrDuplicated
-PROPERTY PersistedNeverRedone
-PROPERTY EventuallyDone
 INVARIANT PTypeOK
 INVARIANT PDesign
 INVARIANT EmitStart
-PROPERTY PStartReturns
-PROPERTY PEventuallyDone
